@@ -16,7 +16,7 @@ M_TEXT = (" In addition (engine M, module-level translation validation): the rea
           "<= 2 (quick) / 3 (thorough) steps of the property's menu; z3 then decides, for ALL host-supplied values (imported globals, imported function results, memory contents and sizes), "
           "that every observable of the encoded module - what each export designates, where each data segment lands, what each element segment and table initialiser yields - equals "
           "the observable of the reference module in which an ID simply is the entity it was handed out for; a history that leaves a live reference to a deleted entity must make encode() fail loudly. ")
-M_OUT = "; engine M: one base module, histories of <= 3 steps, straight-line function bodies, no mutable-global writes / start function / passive segments / tables beyond their initialiser"
+M_OUT = "; engine M: one base module (two import layouts), histories of <= 3 steps, straight-line function bodies, no mutable-global writes / start function / passive segments / tables beyond their initialiser"
 
 
 
